@@ -6,7 +6,7 @@ CHECKS = {
         "Cases run on 2 MiB-stack threads inside a supervised child. Two open known findings are excluded by exact predicates (Typst nesting depth > 256; tree-sitter-dart stalling on its own under a 3 s parser timeout).",
         "property-based testing (proptest) + exhaustive prefix enumeration + scaling measurement; oracle: returns normally"),
 "C02": ("exploration", "Validity predicate over token streams (bounds, order, disjointness, zero-width kinds, plain-English tiling, lexical shape of Word/Space/Number/Punctuation, quote twins), written from the statement with its own punctuation/currency/number tables, evaluated on Parser::parse and Document::get_tokens for generated documents of every front-end (incl. CollapseIdentifiers / IsolateEnglish wrappers) and on the prefix closure of harvested sentences.",
-        "Oracle tables are independent of harper's lexer. Three open known findings tolerated by signature (et al. word with a space; Typst token order; Markdown wikilink token order).",
+        "Oracle tables are independent of harper's lexer. Two open known findings tolerated by signature (et al. word with a space; Markdown wikilink token order).",
         "property-based testing (proptest) with a validity-predicate oracle"),
 "C03": ("exploration", "Edit primitive: exhaustive small scope + random (text, span, suggestion) triples against a reference splice; real lints: every lint of generated documents of every front-end/config/dialect must lie inside the text and each of its suggestions must equal the reference splice.",
         "Reference splice is slice concatenation.",
@@ -14,34 +14,34 @@ CHECKS = {
 "C04": ("exploration", "Files rendered from an abstract specification together with their ground truth (prose words and their char offsets; non-prose regions filled from a disjoint sentinel vocabulary incl. multi-byte text) for all 22 comment languages (every comment style, ignore markers, indentation, CRLF) and for Markdown, HTML, Literate Haskell, git-commit and Typst; oracle: the multiset of (offset, text) of Word tokens equals the prose-word list exactly and no lintable token lies in a non-prose region; each file is checked bare and with the server's identifier-collapsing wrapper.",
         "Per-language code templates are syntactically valid by construction; Typst string literals are treated as prose except in the positional arguments harper-typst skips (lenient reading). One open known finding (Ruby =begin/=end).",
         "property-based testing (proptest) with a constructive ground-truth oracle"),
-"C05": ("exploration", "Stateful: op sequences (SetConfig | Lint(doc, language)) on one long-lived LintGroup over a pool in which clause characters recur at other offsets / languages / configs; after every Lint the result must equal that of a freshly built linter. Plus 8 threads vs sequential, a linter moved across threads, two fresh processes byte-identical, LRU-eviction run (thorough).",
+"C05": ("exploration", "Stateful: op sequences (SetConfig | Lint(doc, language)) on one long-lived LintGroup over a pool in which clause characters recur at other offsets / languages / configs; after every Lint the result must equal that of a freshly built linter. Plus 8 threads vs sequential, a linter moved across threads, two fresh processes byte-identical, LRU-eviction run (thorough); dictionary_change_detection: merged dictionaries that compare equal (the test on which harper-ls keeps its linter) must lint alike.",
         "Differential against LintGroup::new_curated(..).with_lint_config(current) on the same Document.",
         "model-based / differential property testing over operation histories (proptest vec(op) + interpreter)"),
-"C06": ("exploration", "Every entry of the curated dictionary x 4 dialects enumerated alone (re-cased forms too), random entries inside sentence frames; conversely generated non-words must get exactly one Spelling lint with the exact span and only dictionary suggestions of the active dialect. Ground truth = the dictionary's own word list.",
+"C06": ("exploration", "Every entry of the curated dictionary x 4 dialects enumerated alone (re-cased forms too), random entries inside sentence frames; conversely generated non-words must get exactly one Spelling lint with the exact span and only dictionary suggestions of the active dialect; every dialect-tagged entry alone vs inside noun-phrase frames (verdict independent of neighbours, exhaustive); user words merged with the curated dictionary are never reported in their listed capitalisation. Ground truth = the dictionary's own word list.",
         "Open known finding: 149 multi-token dictionary entries (exact list in known_findings.jsonl).",
         "exhaustive enumeration of the dictionary + property-based testing (proptest)"),
-"C07": ("fault_enumeration", "(a) Stateful LSP histories against the real harper-ls binary in a sandbox (add-to-user/file-dictionary with words taken from published diagnostics, change, restart) with a set model: added words are accepted in every subsequently checked text they apply to, other diagnostics unchanged, file dictionaries do not leak, the dictionary file (lines as a set) equals the model, restarts reproduce. (c) Crash points: each save is recorded under strace; every prefix of the globally ordered file mutations and every short write is replayed in a file-system model (validated to reproduce the real final state) and must reload to the previous words or those plus the new word.",
+"C07": ("fault_enumeration", "(a) Stateful LSP histories against the real harper-ls binary in a sandbox (add-to-user/file-dictionary with words taken from published diagnostics, change, restart) with a set model: added words are accepted in every subsequently checked text they apply to, other diagnostics unchanged, file dictionaries do not leak, the dictionary file (lines as a set) equals the model, restarts reproduce. (c) Crash points: each save is recorded under strace; every prefix of the globally ordered file mutations and every short write is replayed in a file-system model (validated to reproduce the real final state) and must reload to the previous words or those plus the new word. (b) import/lint/persist histories on the wasm-facing Linter with a set model. (d) a write error part-way through a save (RLIMIT_FSIZE) must leave every earlier word on disk.",
         "Process death only (no power failure): a crash leaves a prefix of the recorded mutation sequence. Open known finding: a case variant of an earlier word replaces it (excluded by construction, exercised in a sub-run).",
-        "model-based property testing over LSP histories (proptest) + trace-and-replay crash-state enumeration (strace)"),
+        "model-based property testing over LSP and harper.js histories (proptest) + trace-and-replay crash-state enumeration (strace) + injected write fault"),
 "C08": ("exploration", "Generated multi-line documents (astral, combining, tabs, LF/CRLF, with/without trailing newline) opened in the real harper-ls under 9 language ids; for every diagnostic a codeAction request with its own range and at every char position inside it; oracle = independent LSP position arithmetic: diagnostic range == reference range of the embedded lint, every inside position returns that lint's fixes, each TextEdit applied like a client == Suggestion::apply on the char span; published set == in-process lints for plain/Markdown/HTML/Typst.",
         "Lone CR line ends are outside the property's domain and are not generated.",
         "property-based testing (proptest) against the real server; reference-model oracle"),
 "C09": ("exploration", "Stateful histories of batches of LSP messages against the real harper-ls; the harness owns the schedule by choosing the order in which it answers the handlers' workspace/configuration requests (= completion order of the in-flight handlers). After every batch the last publication of every document is compared with what a second, trivially sequential harper-ls process publishes for the newest text under the current settings and dictionaries (closed/deleted: empty). Four designed-in violations are excluded from the must-hold sub-space by construction and exercised in labelled sub-runs.",
         "The harness controls handler completion order, not the tokio worker interleaving between two awaits inside the server (sampled by repetition only).",
         "model-based / differential property testing over scheduled LSP histories (proptest vec(batch) + interpreter)"),
-"C10": ("exploration", "Invariant over strace -f syscall histories of generated harper-ls sessions (every notification and command except HarperOpen, incl. dictionary saves and the statistics write at shutdown; thorough: one TCP-mode session) and of a worker process that pushes generated documents through all front-ends, the harper.js API and statistics export/import: no socket/connect/send/bind/listen beyond the loopback listener, no resolver/TLS files, no exec, and writes only to the configured dictionary and statistics paths. The dependency-set clause is covered by a static cargo-metadata scan reported as an auxiliary.",
+"C10": ("exploration", "Invariant over strace -f syscall histories of generated harper-ls sessions (every notification and command except HarperOpen, incl. dictionary saves and the statistics write at shutdown; documents with non-local URIs and with absolute paths of 150-400 bytes; one TCP-mode session and one TCP-mode start with port 4000 in use) and of a worker process that pushes generated documents through all front-ends, the harper.js API and statistics export/import: no socket/connect/send/bind/listen beyond the loopback listener, no resolver/TLS files, no exec, and writes only to the configured dictionary and statistics paths. The dependency-set clause is covered by a static cargo-metadata scan reported as an auxiliary.",
         "strace sees every syscall of the process tree; the dependency scan is a deny-list, not generated-input search.",
         "property-based testing (proptest) of sessions under a syscall monitor (strace); invariant over the syscall history"),
-"C11": ("exploration", "Additivity of rule switches as a metamorphic relation (lints(S) = lints(A)+lints(B), full singleton decomposition, switching one rule off removes exactly its lints, all-off = nothing), overlay algebra against a map model (fill_with_curated, merge_from, clear, JSON round trip, unknown keys), and the harper.js config path against the in-process model.",
+"C11": ("exploration", "Additivity of rule switches as a metamorphic relation (lints(S) = lints(A)+lints(B), full singleton decomposition, switching one rule off removes exactly its lints, all-off = nothing), overlay algebra against a map model (fill_with_curated, merge_from, clear, JSON round trip, unknown keys), the harper.js config path and the harper-ls settings path (published diagnostics and the lints behind its code actions) against the in-process model; configurations range from a few entries to near-complete settings dumps with unknown names.",
         "Rules are the distinct configuration keys (iter_keys de-duplicated).",
         "metamorphic + model-based property testing (proptest)"),
 "C12": ("exploration", "Metamorphic relation on generated pairs (P, D): lints(P+D) == lints(P) ++ shift(lints(D), |P|) as sorted multisets over all lint fields, all rules on, plain English.",
         "P is quote-free, ends in a terminator and a paragraph break, as the statement requires.",
         "metamorphic property testing (proptest)"),
-"C13": ("exploration", "All ordered lists of <=3 (thorough 4) spans over 0..=5 exhaustively, random larger lists, and real lint lists of generated documents; oracle = sub-multiset, pairwise conflict-free, every dropped lint starts inside a kept one; on documents additionally back-to-front application equals a reference that splices in original coordinates.",
+"C13": ("exploration", "All ordered lists of <=3 (thorough 4) spans over 0..=5 exhaustively, random larger lists, and real lint lists of generated documents; oracle = sub-multiset, pairwise conflict-free, every dropped lint starts inside a kept one; on documents additionally back-to-front application equals a reference that splices in original coordinates; the real harper-cli binary on generated files with 0-2 --only-lint-with rules must print exactly a conflict-free selection.",
         "Validity predicate does not prescribe which of two overlapping lints is kept.",
         "property-based testing (proptest) + exhaustive small-scope enumeration; validity-predicate oracle"),
-"C14": ("exploration", "Documents with repeated problems in equal/different neighbourhoods (also next to quotes); ignore a random subset; filter on the same text, after a JSON round trip of the ignore list, and after prepending/appending paragraphs; oracle uses an independent lint identity (fields + texts of tokens within the span and 2 chars around).",
+"C14": ("exploration", "Documents with repeated problems in equal/different neighbourhoods (also next to quotes); ignore a random subset; filter on the same text, after a JSON round trip of the ignore list, and after prepending/appending paragraphs; oracle uses an independent lint identity (fields + texts of tokens within the span and 2 chars around). The same problem in two texts differing right next to it (document start, punctuation, language) may only be hidden when the identity is equal. Through the real harper-ls: ignore one diagnostic, edit elsewhere (new identifiers, comments, prepended lines), differential against a server that ignored nothing.",
         "Only lints 3+ chars away from the edit boundary are judged after an edit.",
         "property-based testing (proptest); round-trip + metamorphic oracle with an independent identity relation"),
 "C15": ("exploration", "Curated FST / mutable / merged back-ends must answer membership, exact membership, metadata, canonical spelling and *_str twins identically; fuzzy search on every dictionary of <=2 (thorough 3) short words over {a,b,B,'} x every query <=3 x bounds x caps exhaustively, random dictionaries and the curated dictionary against brute-force Levenshtein; merged = union with first-child-wins.",
@@ -50,13 +50,13 @@ CHECKS = {
 "C16": ("exploration", "Stateful call sequences on harper_wasm::Linter (native rlib): lint / apply_suggestion / ignore_lint / import_words / export-clear-import / rebuild from exports / set config, both languages, all dialects; intrinsic invariants (spans, disjointness, problem text, JSON round trips), reference splice, and a differential against an in-process model with the C14 identity for ignores.",
         "JsValue-typed methods cannot run natively; their JSON twins are used.",
         "model-based property testing over call histories (proptest vec(op) + interpreter)"),
-"C17": ("exploration", "Every n in 0..10^5 x 4 suffixes x letter cases enumerated; random n < 2^53 biased to teens/boundaries in random sentence frames; oracle = reference ordinal rule on the integer, exact span, single correct suggestion, fix-point after applying it.",
+"C17": ("exploration", "Every n in 0..10^5 x 4 suffixes x letter cases enumerated; random n < 2^53 biased to teens/boundaries in random sentence frames (also joined to a word by a hyphen, after earlier numbers and suffix-like words); oracle = reference ordinal rule on the integer, exact span, single correct suggestion, fix-point after applying it.",
         "Frames keep '<n><suffix>' delimited by non-alphanumeric characters.",
         "exhaustive enumeration + property-based testing (proptest); reference-model oracle"),
-"C18": ("exploration", "Generated single-paragraph titles (small words, proper nouns in wrong case / curly apostrophes, ligatures, Turkish dotted I, astral, hyphenated): same length, only case changes (or apostrophe normalisation inside a proper noun), first word upper-case, idempotent.",
+"C18": ("exploration", "Generated single-paragraph titles (small words, proper nouns in wrong case / curly apostrophes, ligatures, Turkish dotted I, astral, hyphenated): same length, only case changes (or apostrophe normalisation inside a proper noun), first word upper-case, idempotent; both entry points (make_title_case_str and harper_wasm::to_title_case), paragraphs wrapped over lines and ending with a line break.",
         "Validity predicate from the statement.",
         "property-based testing (proptest); validity predicate + idempotence"),
-"C19": ("exploration", "Histories of append sessions of lint/config records with arbitrary-Unicode contexts (real tokens from lexing + Unlintable tokens holding any characters): one line feed per record, read(write(a)++write(b)) == a++b, write is a homomorphism, summary equals a reference fold.",
+"C19": ("exploration", "Histories of append sessions of lint/config records with arbitrary-Unicode contexts (real tokens from lexing + Unlintable tokens holding any characters): one line feed per record, read(write(a)++write(b)) == a++b, write is a homomorphism, summary equals a reference fold; later sessions may carry older time stamps; the same sessions imported one by one through the harper.js Linter must export the concatenation; the statistics file written by real harper-ls sessions.",
         "Number tokens are produced only by real lexing, so only reachable values occur.",
         "round-trip property testing over append histories (proptest)"),
 }
